@@ -26,6 +26,9 @@ import (
 // Not handled (left as they are): literals with parameters, with named results, with defers below the top level of
 // the body or with deferred calls whose arguments are not plain names, `go`/`defer` of a literal, literals that
 // mention `recover`.
+// IIFEBaseline, when set, names the functions whose bodies are unchanged since the rules were validated.
+var IIFEBaseline *Baseline
+
 func InlineIIFE(dir string, overlay map[string][]byte) (map[string][]byte, []string) {
 	cur := map[string][]byte{}
 	for k, v := range overlay {
@@ -83,6 +86,10 @@ func InlineIIFE(dir string, overlay map[string][]byte) (map[string][]byte, []str
 				visitStmtLists(fd.Body, func(list []ast.Stmt) {
 					for _, st := range list {
 						repl, ok := inlineIIFEStmt(fset, text, st, &counter)
+						if !ok && !(IIFEBaseline != nil && IIFEBaseline.Funcs[FuncDeclKey(pkgPath, fd)].BodyHash == bodyHash(fset, fd)) {
+							// (a function that is as it was when the rules were validated is left as it is)
+							repl, ok = unwrapGoLiteral(fset, text, fd, st)
+						}
 						if !ok {
 							continue
 						}
@@ -280,4 +287,186 @@ func inlineIIFEStmt(fset *token.FileSet, text []byte, st ast.Stmt, counter *int)
 		return out.String(), true
 	}
 	return "{\n" + out.String() + "}", true
+}
+
+// unwrapGoLiteral: `go func() { f(a, b) }()` — a literal without parameters whose whole body is one call — is read as
+// `go f(a, b)`. The two differ only in when the arguments are evaluated (at the go statement, or later inside the
+// goroutine); they are the same when nothing assigns the names the call mentions after the goroutine was started, and
+// only then is the rewrite made: no name of the call is assigned later in the function, nor anywhere in a loop around
+// the go statement unless the loop declares it (its own variables are per-iteration).
+func unwrapGoLiteral(fset *token.FileSet, text []byte, fd *ast.FuncDecl, st ast.Stmt) (string, bool) {
+	off := func(p token.Pos) int { return fset.PositionFor(p, false).Offset }
+	g, ok := st.(*ast.GoStmt)
+	if !ok || len(g.Call.Args) != 0 {
+		return "", false
+	}
+	lit, ok := g.Call.Fun.(*ast.FuncLit)
+	if !ok || lit.Body == nil || len(lit.Body.List) != 1 || (lit.Type.Params != nil && len(lit.Type.Params.List) > 0) || (lit.Type.Results != nil && len(lit.Type.Results.List) > 0) {
+		return "", false
+	}
+	es, ok := lit.Body.List[0].(*ast.ExprStmt)
+	if !ok {
+		return "", false
+	}
+	call, ok := es.X.(*ast.CallExpr)
+	if !ok {
+		return "", false
+	}
+	if _, isLit := call.Fun.(*ast.FuncLit); isLit {
+		return "", false
+	}
+	names := map[string]bool{}
+	bad := false
+	ast.Inspect(call, func(n ast.Node) bool {
+		switch x := n.(type) {
+		case *ast.FuncLit:
+			bad = true
+			return false
+		case *ast.SelectorExpr:
+			ast.Inspect(x.X, func(m ast.Node) bool {
+				if id, ok := m.(*ast.Ident); ok {
+					names[id.Name] = true
+				}
+				return true
+			})
+			return false
+		case *ast.Ident:
+			names[x.Name] = true
+		}
+		return true
+	})
+	if bad {
+		return "", false
+	}
+	// loops around the go statement, and what they declare
+	var loops []ast.Node
+	var find func(n ast.Node, stack []ast.Node) bool
+	find = func(n ast.Node, stack []ast.Node) bool {
+		found := false
+		ast.Inspect(n, func(m ast.Node) bool {
+			if found || m == nil {
+				return false
+			}
+			if m == ast.Node(g) {
+				loops = append([]ast.Node{}, stack...)
+				found = true
+				return false
+			}
+			if m != n {
+				switch m.(type) {
+				case *ast.ForStmt, *ast.RangeStmt:
+					if find(m, append(stack, m)) {
+						found = true
+					}
+					return false
+				}
+			}
+			return true
+		})
+		return found
+	}
+	find(fd.Body, nil)
+	declaredIn := func(loop ast.Node, name string) bool {
+		d := false
+		switch l := loop.(type) {
+		case *ast.RangeStmt:
+			for _, e := range []ast.Expr{l.Key, l.Value} {
+				if id, ok := e.(*ast.Ident); ok && id.Name == name && l.Tok == token.DEFINE {
+					d = true
+				}
+			}
+		case *ast.ForStmt:
+			if as, ok := l.Init.(*ast.AssignStmt); ok && as.Tok == token.DEFINE {
+				for _, e := range as.Lhs {
+					if id, ok := e.(*ast.Ident); ok && id.Name == name {
+						d = true
+					}
+				}
+			}
+		}
+		var body *ast.BlockStmt
+		switch l := loop.(type) {
+		case *ast.RangeStmt:
+			body = l.Body
+		case *ast.ForStmt:
+			body = l.Body
+		}
+		if body != nil {
+			for _, s := range body.List {
+				switch x := s.(type) {
+				case *ast.AssignStmt:
+					if x.Tok == token.DEFINE {
+						for _, e := range x.Lhs {
+							if id, ok := e.(*ast.Ident); ok && id.Name == name {
+								d = true
+							}
+						}
+					}
+				case *ast.DeclStmt:
+					if gd, ok := x.Decl.(*ast.GenDecl); ok {
+						for _, sp := range gd.Specs {
+							if vs, ok := sp.(*ast.ValueSpec); ok {
+								for _, nm := range vs.Names {
+									if nm.Name == name {
+										d = true
+									}
+								}
+							}
+						}
+					}
+				}
+			}
+		}
+		return d
+	}
+	assigned := func(n ast.Node, name string, after token.Pos) bool {
+		hit := false
+		ast.Inspect(n, func(m ast.Node) bool {
+			if hit || m == nil {
+				return false
+			}
+			check := func(e ast.Expr, pos token.Pos) {
+				if id, ok := e.(*ast.Ident); ok && id.Name == name && pos > after {
+					hit = true
+				}
+			}
+			switch x := m.(type) {
+			case *ast.AssignStmt:
+				for _, e := range x.Lhs {
+					check(e, x.Pos())
+				}
+			case *ast.IncDecStmt:
+				check(x.X, x.Pos())
+			case *ast.RangeStmt:
+				if x.Tok == token.ASSIGN {
+					if x.Key != nil {
+						check(x.Key, x.Pos())
+					}
+					if x.Value != nil {
+						check(x.Value, x.Pos())
+					}
+				}
+			case *ast.UnaryExpr:
+				if x.Op == token.AND {
+					check(x.X, x.Pos()) // address taken later: may be written through it
+				}
+			}
+			return true
+		})
+		return hit
+	}
+	for name := range names {
+		if assigned(fd.Body, name, g.End()) {
+			return "", false
+		}
+		for _, l := range loops {
+			if declaredIn(l, name) {
+				continue
+			}
+			if assigned(l, name, token.NoPos) {
+				return "", false
+			}
+		}
+	}
+	return "go " + string(text[off(call.Pos()):off(call.End())]), true
 }
